@@ -20,6 +20,8 @@ import Larking.Model.WebWriter
 import Larking.Model.Lifecycle
 import Larking.Model.WsClose
 import Larking.Gen.Params
+import Larking.Gen.Dispatch
+import Larking.Model.Dispatch
 import Larking.Gen.Lexer
 namespace Larking.Driver
 open Larking.Status
@@ -149,6 +151,21 @@ def handleC04 : List String → Option String
       let ls ← hexList lines
       let os ← hexList offers
       pure (toHex (Negotiate.negotiateContentEncoding (Negotiate.parseAccept ls) os))
+  | _ => none
+
+/-! ### protocol dispatch -/
+def handleDispatch : List String → Option String
+  | ["dispatch", pm, ct] => do
+      let p ← pm.toNat?
+      let c ← hexArg ct
+      pure (Dispatch.dispatch (Dispatch.ofGen Gen.Dispatch.tests) p c).name
+  | ["iswebreq", ct, method] => do
+      let c ← hexArg ct
+      let m ← hexArg method
+      pure (match Dispatch.isWebRequest c m with
+        | some (t, e) => "ok " ++ toHex t ++ " " ++ toHex e
+        | none => "no")
+  | ["normpath", p] => (hexArg p).map fun b => toHex (Dispatch.normPath b)
   | _ => none
 
 /-! ### routing -/
@@ -533,7 +550,7 @@ def handleWeb : List String → Option String
   | _ => none
 
 def handlers : List (List String → Option String) :=
-  [handleC05, handleC14C15, handleC17, handleC19, handleC04, handleRouting, handleStreams, handleParams, handleRegistry, handleEvents, handleProxy, handleMount, handleWeb]
+  [handleC05, handleC14C15, handleC17, handleC19, handleC04, handleDispatch, handleRouting, handleStreams, handleParams, handleRegistry, handleEvents, handleProxy, handleMount, handleWeb]
 
 def handle (args : List String) : String :=
   match handlers.findSome? (fun h => h args) with
